@@ -907,7 +907,14 @@ fn compare(env: &Value, calls: &[String], exp_outs: &[Value], exp_reqs: &[Value]
                             keys.push((k, case.clone()));
                         }
                         if others(&er["ctrls"]) != others(&ar["ctrls"]) && !stale_page {
-                            keys.push((format!("c10:finish:{}:result-controls", chain), case.clone()));
+                            // the same controls in another order on a chain with PagedResults: the adapter removes its own
+                            // control from the server's list and must leave the rest as the server sent it (C16; C03's wording)
+                            let sorted = |v: &Value| -> Vec<String> { let mut x: Vec<String> = others(v).iter().map(|c| c.to_string()).collect(); x.sort(); x };
+                            if pr && sorted(&er["ctrls"]) == sorted(&ar["ctrls"]) {
+                                keys.push((format!("c16:finish:{}:result-controls-reordered", chain), case.clone()));
+                            } else {
+                                keys.push((format!("c10:finish:{}:result-controls", chain), case.clone()));
+                            }
                         }
                     }
                     if keys.is_empty() {
